@@ -53,6 +53,7 @@ type e2e struct {
 	extraArgs []string
 	exitedCh  chan error
 	dead      bool
+	inplace   bool // the mapping file is a regular file rewritten in place, its modification time put back after each rewrite
 }
 
 func builtinFamily(n string) bool {
@@ -224,6 +225,15 @@ func (e *e2e) start(flags int, cache string, size int, cfg string, hasCfg bool) 
 }
 
 func (e *e2e) writeConfig(cfg string) {
+	if e.inplace {
+		// same inode; the modification time of the first version is restored (cp -p, rsync -t, reproducible unpacks)
+		st, err := os.Stat(e.cfgPath)
+		os.WriteFile(e.cfgPath, []byte(cfg), 0o644)
+		if err == nil {
+			os.Chtimes(e.cfgPath, st.ModTime(), st.ModTime())
+		}
+		return
+	}
 	e.version++
 	target := filepath.Join(e.dir, fmt.Sprintf("mapping-v%d.yml", e.version))
 	os.WriteFile(target, []byte(cfg), 0o644)
@@ -430,8 +440,8 @@ func e2eCase(c string, settle time.Duration) string {
 	if len(hdr) > 3 {
 		transport = hdr[3]
 	}
-	sighup := len(hdr) > 4 && hdr[4] == "sighup"
-	e := &e2e{transport: transport, settle: settle}
+	sighup := len(hdr) > 4 && strings.Contains(hdr[4], "sighup")
+	e := &e2e{transport: transport, settle: settle, inplace: len(hdr) > 4 && strings.Contains(hdr[4], "inplace")}
 	defer e.stop()
 	var results []string
 	started := false
@@ -718,6 +728,12 @@ func tcpFramingCase(c string) string {
 		return "F fail dial"
 	}
 	conn.Write([]byte(unhex(f[1])))
+	if len(f) >= 4 {
+		// "F <hex> <hex2> <ms>": the sender pauses in the middle of the stream (possibly mid-line)
+		ms, _ := strconv.Atoi(f[3])
+		time.Sleep(time.Duration(ms) * time.Millisecond)
+		conn.Write([]byte(unhex(f[2])))
+	}
 	conn.Close()
 	prev, same := "", 0
 	var mfs map[string]*dto.MetricFamily
